@@ -588,17 +588,22 @@ func (ex *Exec) evalBinary(e *ast.BinaryExpr, st *State) Value {
 	switch e.Op {
 	case token.LAND, token.LOR:
 		a := ex.eval(e.X, st).scalar()
-		// short circuit: evaluate rhs under the guard
+		// short circuit: evaluate rhs under the guard; facts learned there are kept under the guard
 		sub := st.clone()
-		if e.Op == token.LAND {
-			sub.assume(a)
-		} else {
-			sub.assume(mkNot(a))
+		g := a
+		if e.Op == token.LOR {
+			g = mkNot(a)
 		}
-		nobl := len(ex.obls)
+		sub.assume(g)
+		n0 := len(sub.pc)
 		b := ex.eval(e.Y, sub).scalar()
-		_ = nobl
-		// side effects in the rhs of && / || are not supported (heap changes are dropped); safety obligations were recorded under the guard
+		if !sub.dead {
+			for _, f := range sub.pc[n0:] {
+				st.assume(mkImplies(g, f))
+			}
+			st.alloc = mkIte(g, sub.alloc, st.alloc)
+		}
+		// side effects of the rhs on variables or the heap are not supported (none occur in the code under contract)
 		if e.Op == token.LAND {
 			return boolV(mkAnd(a, b))
 		}
@@ -790,13 +795,13 @@ func (ex *Exec) convertTo(v Value, t types.Type, st *State) Value {
 	if types.Identical(v.T, t) {
 		return v
 	}
+	if b, ok := v.T.(*types.Basic); ok && b.Kind() == types.UntypedNil {
+		return zeroValue(t)
+	}
 	_, toIface := t.Underlying().(*types.Interface)
 	_, fromIface := v.T.Underlying().(*types.Interface)
 	if toIface && !fromIface {
 		return ex.toInterface(v, t, st)
-	}
-	if b, ok := v.T.(*types.Basic); ok && b.Kind() == types.UntypedNil {
-		return zeroValue(t)
 	}
 	// same shape (named vs unnamed)
 	tl := leavesOf(t)
